@@ -70,11 +70,22 @@ def recursion_bounded(ctx):
             Gf |= b.dominated_by_edge(e)
         errs_ok = all(any(bb in b.dominated_by_edge(e) for (bb, st) in b.aggregates("Result", "Err")) for e in et)
         chain_ok = True
+        # which parameters are the ancestor chain and the current id: the receiver and the needle of the `contains` test
+        anc_params, id_params = set(), set()
+        for e in et:
+            for d in bool_atom_desc(b, e.label[2]):
+                if d[0] == "call" and len(d[2]) > 1:
+                    anc_params |= {a for a in d[2][0] if a[0] == "param"}
+                    id_params |= {a for a in d[2][1] if a[0] == "param"}
+        id_only = id_params - anc_params
         for rb in recs:
             t = b.term(rb)
-            at = b.prov.operand_atoms(t["args"][3]) if len(t["args"]) > 3 else set()
-            # the chain passed down derives from the incoming chain (param 4) and the current id (param 3)
-            if not ({("param", 3), ("param", 4)} <= at):
+            at = set()
+            for a in t["args"]:
+                at |= b.prov.operand_atoms(a)
+            # some argument passed down derives from the incoming chain and from the current id
+            ok_arg = any((anc_params - id_params) & b.prov.operand_atoms(a) and (id_only & b.prov.operand_atoms(a)) for a in t["args"])
+            if not (anc_params and id_only and ok_arg):
                 chain_ok = False
         ancestor = errs_ok and chain_ok and all(rb in Gf for rb in recs)
     ctx.check(bool(consuming) or ancestor, f"{short(b.name)}/bounded", [site(b, x) for x in consuming] or [b.loc()],
@@ -107,17 +118,25 @@ def output_of_build_only(ctx):
     b = resolver(ctx)
     ext = [(bb, t) for bb, t in b.calls() if callee_base(t).endswith("Target::extend_input") or "extend_input" in callee_base(t)]
     ctx.need(ext, "call extending the consumer's input")
-    Rb = variant_region(b, "Target", "Build")
+    n_ok = 0
     for bb, t in ext:
-        ctx.check(bb in Rb, f"{short(b.name)}/extend-only-from-build", [site(b, bb)], "the consumer's input is extended outside the `Target::Build` branch")
-    # the complementary edge returns Err
-    comp = [e for e in b.edges if e.label and e.label[0] == "variant" and path_ends(e.label[1] or "", "Target") and "Build" not in e.label[2] and e.label[2]]
-    ctx.need(comp, "non-Build branch of the match on the producer")
-    for e in comp:
-        blks = b.dominated_by_edge(e)
-        errs = [bb for (bb, st) in b.aggregates("Result", "Err") if bb in blks and st["lhs"]["local"] == 0]
-        ctx.check(bool(errs) and _must_pass(b, blks, errs[0]) if errs else False, f"{short(b.name)}/non-build-is-error", [site(b, x) for x in errs] or [b.loc(e.dst)],
-                  "`.output` of a service or aggregate target is silently accepted")
+        # the innermost `Build` edge (of the domain Target enum) that dominates the call: the match on the producer
+        be = [e for e in b.edges if e.label and e.label[0] == "variant" and e.label[2] == ("Build",) and path_ends(e.label[1] or "", "domain::Target") and bb in b.dominated_by_edge(e)]
+        if not be:
+            ctx.bad(f"{short(b.name)}/extend-only-from-build", [site(b, bb)], "the consumer's input is extended outside the `Target::Build` branch")
+            continue
+        e_b = max(be, key=lambda e: len([x for x in be if e.src in b.dominated_by_edge(x)]))
+        ctx.ok(f"{short(b.name)}/extend-only-from-build", [site(b, bb)])
+        # the other edges of that very match return Err on every path
+        comp = [e for e in b.succ[e_b.src] if e is not e_b and e.label and e.label[0] == "variant"]
+        for e in comp:
+            blks = b.dominated_by_edge(e)
+            errs = [x for (x, st) in b.aggregates("Result", "Err") if x in blks]
+            good = bool(errs) and any(_must_pass(b, blks, x) for x in errs)
+            n_ok += 1
+            ctx.check(good, f"{short(b.name)}/non-build-is-error", [site(b, x) for x in errs] or [b.loc(e.dst)],
+                      "`.output` of a service or aggregate target is silently accepted")
+    ctx.need(n_ok >= 1, "non-Build branch of the match on the producer")
 
 
 @rule("C09.UNKNOWN-IS-ERR", ["C09"], """an unknown project or target in a reachable reference is an Err (lookups are `?`-checked, never indexed or unwrapped)""", "K1", floor=2)
@@ -136,6 +155,13 @@ def unknown_is_err(ctx):
             if operand_local(b.term(tb)["args"][0]) in fl and be is not None:
                 checked = True
         unwrapped = [x for x, tt in b.calls() if re.search(r"Option::<.*>::(unwrap|expect)$", callee_decl(tt)) and operand_local(tt["args"][0]) in fl]
+        if not checked:
+            # `match lookup { None => return Err(..), Some(x) => x }`
+            for e in b.edges:
+                if e.label and e.label[0] == "variant" and e.label[2] == ("None",) and e.label[3] and e.label[3]["local"] in fl:
+                    blks = b.dominated_by_edge(e)
+                    if any(x in blks for (x, st) in b.aggregates("Result", "Err")):
+                        checked = True
         ctx.check(checked and not unwrapped, f"{short(b.name)}/{callee_base(t).split('::')[-1]}@{[x[0] for x in lookups].index(bb)}", [site(b, bb)],
                   "a missing project/target is not turned into an error (the lookup is unwrapped or unchecked)")
     idx = [(bb, t) for bb, t in b.calls() if re.search(r"Index<.*>>::index$", callee_decl(t)) and re.search(r"HashMap<std::option::Option<std::string::String>|HashMap<std::string::String, [\w:]*yaml", callee_decl(t))]
@@ -320,7 +346,8 @@ def name_checks(ctx):
 def import_name(ctx):
     f = ctx.f
     # the recursive project adder: self-recursive local fn over HashMap<PathBuf, Project>
-    adders = [b for b in f.user_bodies() if b.name in f.cg.edges.get(b.name, ()) and any(re.search(r"HashMap<std::path::PathBuf, [\w:]*Project>", l["ty"]) for l in b.locals[1:b.argc + 1])]
+    adders = [ctx.r.V(b) for b in ctx.r.outermost([b for b in f.user_bodies() if b.kind in ("Fn", "AssocFn") and ctx.r.recursive_in_view(b) and
+                                                    any(re.search(r"HashMap<std::path::PathBuf, [\w:]*Project>", l["ty"]) for l in b.locals[1:b.argc + 1])])]
     ctx.need(adders, "recursive project loader")
     for b in adders:
         def loaded(d):
@@ -329,7 +356,7 @@ def import_name(ctx):
         ef = bool_edges(b, loaded, False)
         recs = rec_sites(b)
         # recursion may sit in a closure of this fn (and_then): look at calls in nested closures too
-        nested = [x for x in f.cg.reach([b.name], cross_spawn=False) if x.startswith(b.name + "::")]
+        nested = [x for x in f.cg.reach([b.name], cross_spawn=False) if x.startswith(b.name + "::") or (x != b.name and x in ctx.r.origins_of_view(f.bodies[b.name]))]
         G = set()
         for e in ef:
             G |= b.dominated_by_edge(e)
@@ -339,13 +366,23 @@ def import_name(ctx):
         bodies = [b] + [f.bodies[x] for x in nested]
         none_err = ne_err = False
         behind = []
-        for x in bodies:
+        # the import-name checks belong to the import *edge*: they must run after the recursive load of the imported directory, inside the loop over the
+        # imports (then they also run when that directory was already loaded). A check placed elsewhere in the adder sits behind the early return.
+        loops = b.natural_loops()
+        rec_loops = [blks for (h, blks, ex) in loops if any(rb in blks for rb in recs)]
+        after_rec = set()
+        for rb in recs:
+            after_rec |= b.reach_from(rb)
+        def on_import_edge(bb):
+            return bb in after_rec and any(bb in blks for blks in rec_loops)
+        for x in [b]:
             for e in x.edges:
-                # a name check placed in the adder itself, after the `already loaded` early return, is skipped for a project reached a second time
-                if x is b and e.label and e.src in G and ((e.label[0] == "variant" and e.label[2] == ("None",) and origin_matches(edge_origin(x, e), lambda o: o[0] == "field" and "name" in o[1])) or
-                                                          (e.label[0] == "bool" and any(d[0] == "call" and ("::ne" in d[1] or d[1].endswith("::eq")) and any(atom_has_field(a, "name") for a in d[2]) for d in bool_atom_desc(x, e.label[2]) if e.label[2] is not None))):
-                    if any(bb in x.dominated_by_edge(e) for (bb, st) in x.aggregates("Result", "Err")):
+                is_name_check = e.label and ((e.label[0] == "variant" and e.label[2] == ("None",) and origin_matches(edge_origin(x, e), lambda o: o[0] == "field" and "name" in o[1])) or
+                                             (e.label[0] == "bool" and e.label[2] is not None and any(d[0] == "call" and ("::ne" in d[1] or d[1].endswith("::eq")) and any(atom_has_field(a, "name") for a in d[2]) for d in bool_atom_desc(x, e.label[2]))))
+                if is_name_check and any(bb in x.dominated_by_edge(e) for (bb, st) in x.aggregates("Result", "Err")):
+                    if not on_import_edge(e.src):
                         behind.append(e)
+        for x in bodies:
             for e in x.edges:
                 if e.label and e.label[0] == "variant" and e.label[2] == ("None",) and e.label[3] and ("name" in place_fields(e.label[3]) or origin_matches(edge_origin(x, e), lambda o: o[0] == "field" and "name" in o[1])):
                     blks = x.dominated_by_edge(e)
@@ -380,7 +417,7 @@ def unique(ctx):
     ctx.need(cons, "construction of the name-keyed project map")
     # idiom (b): a duplicate test in the loader: HashSet::insert on project names whose false edge errors, dominating the acceptance of the loaded set
     dup_tests = []
-    for b in f.user_bodies():
+    for b in [ctx.r.V(x) for x in ctx.r.roots()]:
         for e in b.edges:
             if e.label and e.label[0] == "bool" and e.label[2] is not None:
                 for d in bool_atom_desc(b, e.label[2]):
@@ -424,34 +461,64 @@ def _constructs_after(ctx, tb, e):
 
 C14_SCOPE_NOTE = "loader, From<yaml::Config>, name listing, name parsing, resolver, and main up to the resolver call"
 
-# frozen table of justified panic-capable sites on the configuration path: (function label regex, kind, detail regex) -> reason
-C14_PANIC_TABLE = [
-    (r"is_valid_(target|project)_name::RE.*__static_ref_initialize$", "unwrap", r"Result::<regex::Regex", "constant regex literal"),
-    (r"transform_input::\{c0\}::RE.*__static_ref_initialize$", "unwrap", r"Result::<regex::Regex", "constant regex literal"),
-    (r"transform_input::\{c0\}$", "unwrap", r"Option::<regex::Match", "group 1 exists whenever the constant regex matched", "under-regex-captures"),
-    (r"transform_input::\{c0\}$", "unwrap", r"Result::<[\w:]*TargetId", "the regex guarantees at most one `::` in the captured name", "under-regex-captures"),
-    (r"add_target$", "index", r"HashMap<[\w:]*TargetId, [\w:]*Target> as std::ops::Index", "the producer was resolved by the preceding loop over the dependencies (which include it)"),
-    (r"add_target$", "unwrap", r"Result::<\(\), anyhow::Error>::unwrap", "extend_input only fails for aggregates, which have no `X.output` input"),
-    (r"add_target::\{c0\}$", "unwrap", r"Option::<&std::string::String>::unwrap", "the project name is Some whenever the lookup under it fails (the unnamed root project is always present)"),
-    (r"From<config::yaml::Config>>::from$", "index", r"HashMap<std::path::PathBuf, [\w:]*Project> as std::ops::Index", "the root project directory is inserted by the loader before anything else"),
-    (r"add_project::\{c1\}$|add_project$", "index", r"HashMap<std::path::PathBuf, [\w:]*Project> as std::ops::Index", "the imported directory was inserted by the recursive call that just returned Ok"),
-    (r"Config::get_project$", "index", r"HashMap<std::option::Option<std::string::String>", "called with the root project's own name only"),
-    (r"TargetId::try_parse$", "index", r"Vec<&str> as std::ops::Index<std::ops::RangeFull>", "full-range slice of a vector: cannot fail"),
-    (r"^main$", "unwrap", r"Result::<\(\), log::SetLoggerError>::unwrap", "the logger is initialised exactly once, at start-up"),
-    (r"^main$", "assert", r"Overflow\(Add", "verbosity = number of -v flags + 2: cannot overflow a usize (debug builds only)"),
-    (r"^main$", "unwrap", r"Option::<&str>::unwrap", "clap default value for --project"),
-    (r"^main$", "unwrap", r"Result::<std::vec::Vec<[\w:]*TargetId>, anyhow::Error>::unwrap", "clap restricts the requested names to the offered (valid) names"),
-]
+
+def _under_regex_match(b, bb):
+    for e in b.edges:
+        if e.label and e.label[0] == "variant" and e.label[2] == ("Some",) and origin_matches(edge_origin(b, e), lambda o: o[0] == "call" and o[1].endswith("Regex::captures")):
+            if bb in b.dominated_by_edge(e):
+                return True
+    return False
+
+
+def justified_panic_site(ctx, b, bb, kind, detail, roles):
+    """reason why a panic-capable site on the configuration path cannot fire, or None. The justifications are semantic facts about the site (what is
+    unwrapped/indexed, under which guard, in which role), not function names or positions."""
+    t = b.term(bb)
+    args = t["args"] if t["k"] == "call" else []
+    at0 = b.prov.operand_atoms(args[0]) if args else set()
+    in_resolver = any(b.name == v.name or b.name in roles["resolver_origins"] for v in roles["resolvers"])
+    in_loader = b.name in roles["loader_reach"]
+    if kind == "unwrap" and "Result::<regex::Regex" in detail and any(c.endswith("Regex::new") for c in atom_callres(at0)) and any(x.startswith('"') for x in atom_consts(at0)):
+        return "constant regex literal (its validity is a fact of the source; the literal itself is judged by C14.NAME-REGEX)"
+    if kind == "unwrap" and "Option::<regex::Match" in detail and _under_regex_match(b, bb):
+        return "group 1 exists whenever the constant regex matched"
+    if kind == "unwrap" and re.search(r"Result::<[\w:]*TargetId", detail) and _under_regex_match(b, bb) and any(c in roles["parsers"] for c in atom_callres(at0)):
+        return "the regex guarantees at most one `::` in the captured name, so the parser cannot fail"
+    if kind == "index" and re.search(r"HashMap<[\w:]*TargetId, [\w:]*Target> as std::ops::Index", detail) and in_resolver:
+        return "the producer was resolved by the preceding loop over the dependencies (which include it)"
+    if kind == "unwrap" and "Result::<(), anyhow::Error>::unwrap" in detail and any("extend_input" in c for c in atom_callres(at0)):
+        # only justified inside the Build branch of the match on the producer
+        be = [e for e in b.edges if e.label and e.label[0] == "variant" and e.label[2] == ("Build",) and bb in b.dominated_by_edge(e)]
+        if be:
+            return "extend_input only fails for aggregates; the producer matched `Target::Build`"
+    if kind == "unwrap" and "Option::<&std::string::String>::unwrap" in detail and atom_has_field(at0, "project_name", "TargetId"):
+        return "only evaluated to word the 'project does not exist' error: the lookup under `None` (the root project) cannot fail, so the name is Some"
+    if kind == "index" and re.search(r"HashMap<std::path::PathBuf, [\w:]*Project> as std::ops::Index", detail) and (in_loader or "From<config::yaml::Config>" in b.name):
+        return "the directory was inserted by the loader before (root directory first; an import right after its recursive load returned Ok)"
+    if kind == "index" and re.search(r"HashMap<std::option::Option<std::string::String>", detail) and atom_has_field(b.prov.operand_atoms(args[1]) if len(args) > 1 else set(), "root_project_name") | any(a[0] == "param" for a in (b.prov.operand_atoms(args[1]) if len(args) > 1 else set())):
+        return "indexed with the root project's own name only (the root project is always loaded)"
+    if kind == "index" and "std::ops::Index<std::ops::RangeFull>" in detail:
+        return "full-range slice: cannot fail"
+    if b.name == "main":
+        if kind == "unwrap" and "log::SetLoggerError" in detail:
+            return "the logger is initialised exactly once, at start-up"
+        if kind == "unwrap" and "Option::<&str>::unwrap" in detail and any(a[0] == "static" and a[1].endswith("PROJECT_DIR") for x in args for a in b.prov.operand_atoms(x)) | any(c.endswith("ArgMatches::value_of") for c in atom_callres(at0)):
+            return "clap default value for --project"
+        if kind == "unwrap" and re.search(r"Result::<std::vec::Vec<[\w:]*TargetId>, anyhow::Error>::unwrap", detail):
+            return "clap restricts the requested names to the offered (valid) names"
+        if kind == "assert" and "Overflow(Add" in detail:
+            return "verbosity = number of -v flags + 2: cannot overflow a usize (debug builds only)"
+    return None
 
 
 @rule("C14.NO-PANIC", ["C14"], """no unjustified panic-capable site on the configuration path (loader, conversion, name listing, name parsing, resolver, main up to the resolver): every
-      unwrap/expect/index/assert there is in a frozen table with its reason""", "K9", floor=8)
+      unwrap/expect/index/assert there is justified by a semantic fact of the site (what is unwrapped, under which guard, in which role)""", "K9", floor=8)
 def no_panic_config(ctx):
     r = ctx.r
     f = ctx.f
     m = r.main_body()
     roots = set()
-    entry = [(bb, t) for bb, t in m.calls() if t["callee"]["local"] and callee_base(t) in f.bodies and re.search(r"Result<std::collections::HashMap<[\w:]*TargetId, [\w:]*Target>", f.bodies[callee_base(t)].ret)]
+    entry = [(bb, t) for bb, t in m.calls() if t["callee"]["local"] and callee_base(t) in f.bodies and re.search(r"Result<std::collections::HashMap<[\w:]*TargetId, [\w:]*Target>", f.bodies[callee_base(t)].ret) and m.origin(bb) == m.name]
     ctx.need(len(entry) == 1, "resolver entry in main")
     ebb = entry[0][0]
     pre_blocks = m.reach_to(ebb) | {ebb}
@@ -460,14 +527,15 @@ def no_panic_config(ctx):
             cn = t["callee"]["rbase"] or t["callee"]["base"]
             if cn in f.bodies:
                 roots.add(cn)
-            for tgt in f.cg.edges.get("main", ()):
-                pass
-    # dispatch edges out of main (Into::into -> From::from) were added to the call graph under main
     for x in f.cg.edges.get(m.name, ()):
         if "From<config::yaml::Config>" in x:
             roots.add(x)
     scope = {x for x in f.cg.reach(roots) if x in f.bodies and not f.is_derived(f.bodies[x])}
     ctx.need(len(scope) >= 20, f"bodies on the configuration path (found {len(scope)})")
+    loaders = loader_fns(ctx)
+    loader_roots = {b.name for b in f.user_bodies() if any(l.name in f.cg.reach([b.name]) for l in loaders) and b.name in scope} | {l.name for l in loaders}
+    roles = {"resolvers": r.resolvers(), "resolver_origins": set().union(*[r.origins_of_view(f.bodies[v.name]) for v in r.resolvers()]) if r.resolvers() else set(),
+             "loader_reach": f.cg.reach(loader_roots), "parsers": {p.name for p in parse_fns(ctx)} | {b.name for b in f.user_bodies() if any(p.name in f.cg.edges.get(b.name, ()) for p in parse_fns(ctx))}}
     sites = []
     for x in sorted(scope):
         b = f.bodies[x]
@@ -482,25 +550,19 @@ def no_panic_config(ctx):
             sites.append(("main", m, bb, kind, detail))
     for (x, b, bb, kind, detail) in sites:
         lab = short(x)
-        why = None
-        full = re.sub(r"\{closure#(\d+)\}", r"{c\1}", x)
-        for ent in C14_PANIC_TABLE:
-            (frx, k, drx, reason) = ent[:4]
-            if k == kind and re.search(frx, full) and re.search(drx, detail):
-                if len(ent) > 4 and ent[4] == "under-regex-captures":
-                    # the justification only holds where the constant regex matched: the site must be dominated by the Some edge of Regex::captures
-                    G = set()
-                    for e in b.edges:
-                        if e.label and e.label[0] == "variant" and e.label[2] == ("Some",) and origin_matches(edge_origin(b, e), lambda o: o[0] == "call" and o[1].endswith("Regex::captures")):
-                            G |= b.dominated_by_edge(e)
-                    if bb not in G:
-                        continue
-                why = reason
-                break
+        # guards may sit in the caller when the site was extracted into a helper: judge the site in the root view that contains it
+        vb, vbb = (b, bb)
+        if x != "main":
+            root = r.container(b)
+            rv = r.V(root)
+            nb = bb if root.name == b.name else rv.locate(b.name, bb)
+            if nb is not None:
+                vb, vbb = rv, nb
+        why = justified_panic_site(ctx, vb, vbb, kind, detail, roles) or (justified_panic_site(ctx, b, bb, kind, detail, roles) if vb is not b else None)
         if why:
             ctx.ok(f"{lab}/{kind}@{_site_ord(sites, x, bb, kind)}", [site(b, bb)], why)
         else:
-            ctx.bad(f"{lab}/{kind}/{_detail_key(detail)}", [site(b, bb)], f"panic-capable `{kind}` on the configuration path that is not in the table of justified sites ({detail}): some configuration could make zinoma panic")
+            ctx.bad(f"{lab}/{kind}/{_detail_key(detail)}", [site(b, bb)], f"panic-capable `{kind}` on the configuration path without a known justification ({detail}): some configuration could make zinoma panic")
 
 
 def _site_ord(sites, x, bb, kind):
@@ -515,9 +577,16 @@ def _detail_key(d):
 
 # ------------------------------------------------------------------ C19
 def parse_fns(ctx):
-    """TargetId::try_parse role: local fn(&str, &Option<String>) -> Result<TargetId>"""
-    out = [b for b in ctx.f.user_bodies() if b.argc == 2 and b.locals[1]["ty"] == "&str" and "Option<std::string::String>" in b.locals[2]["ty"] and re.search(r"Result<[\w:]*TargetId", b.ret)]
-    ctx.need(out, "name parser fn(&str, &Option<String>) -> Result<TargetId>")
+    """the name parser: innermost local fn(&str, &Option<String>) -> Result<TargetId> whose view splits the name and constructs a TargetId"""
+    r = ctx.r
+    cands = []
+    for b in ctx.f.user_bodies():
+        if b.argc == 2 and b.locals[1]["ty"] == "&str" and "Option<std::string::String>" in b.locals[2]["ty"] and re.search(r"Result<[\w:]*TargetId", b.ret):
+            v = r.V(b)
+            if list(v.aggregates("TargetId")) and any(re.search(r"str>::split|::split(::<.*>)?$", callee_base(t)) for _, t in v.calls()):
+                cands.append(b)
+    out = [r.V(b) for b in r.minimal(cands)]
+    ctx.need(out, "name parser fn(&str, &Option<String>) -> Result<TargetId> (splits the name, builds a TargetId)")
     return out
 
 
@@ -525,20 +594,36 @@ def parse_fns(ctx):
 def default_to_current(ctx):
     for b in parse_fns(ctx):
         sites = list(b.aggregates("TargetId"))
-        ctx.need(len(sites) >= 2, "two constructions of TargetId in the parser")
-        from_cur, from_seg = [], []
+        ctx.need(sites, "construction of TargetId in the parser")
+        # the possible sources of the id's project: per path reaching a construction, the local that supplies `project_name` on that path
+        from_cur, from_seg, odd = [], [], []
+        seen_src = set()
         for (bb, st) in sites:
             pop = agg_field_op(st, "project_name")
-            at = b.prov.operand_atoms(pop)
-            if ("param", 2) in at and ("param", 1) not in at:
-                from_cur.append(bb)
-            elif ("param", 1) in at and ("param", 2) not in at and "Some" in atom_aggs(at, "Option"):
-                from_seg.append(bb)
-            else:
-                ctx.bad(f"{short(b.name)}/project@{bb}", [site(b, bb)], "the project of a parsed name derives from neither the current project alone nor the first segment alone")
+            l = operand_local(pop)
+            if l is None:
+                odd.append(bb)
+                continue
+            for p in enumerate_paths(b, stop_at={bb}):
+                if not p or p[-1].dst != bb:
+                    continue
+                blocks = [0] + [e.dst for e in p]
+                src = path_source_local(b, blocks, l, len(blocks) - 1)
+                if (bb, src) in seen_src:
+                    continue
+                seen_src.add((bb, src))
+                at = b.prov.atoms(src)
+                sb = next((d[2] for d in b.prov.defs.get(src, ()) if d[0] in ("assign", "call")), bb)
+                if ("param", 2) in at and ("param", 1) not in at:
+                    from_cur.append(sb)
+                elif ("param", 1) in at and ("param", 2) not in at and ("Some" in atom_aggs(at, "Option") or any(c.endswith("::map") for c in atom_callres(at))):
+                    from_seg.append(sb)
+                else:
+                    odd.append(sb)
+        for x in odd:
+            ctx.bad(f"{short(b.name)}/project@{x}", [site(b, x)], "the project of a parsed name derives from neither the current project alone nor the first segment alone")
         ctx.check(len(from_cur) == 1, f"{short(b.name)}/bare-name", [site(b, x) for x in from_cur] or [b.loc()], "a bare name is not resolved in the current project")
         ctx.check(len(from_seg) == 1, f"{short(b.name)}/qualified-name", [site(b, x) for x in from_seg] or [b.loc()], "a qualified name does not take its project from its first segment")
-        # which arm: the bare arm must be the one-segment arm (length test == 1), the qualified the two-segment one
         errs = [bb for (bb, st) in b.aggregates("Result", "Err") if st["lhs"]["local"] == 0]
         ctx.check(bool(errs), f"{short(b.name)}/too-many-segments", [site(b, x) for x in errs] or [b.loc()], "a name with more than one `::` is not rejected")
         if from_cur and from_seg:
@@ -548,16 +633,45 @@ def default_to_current(ctx):
                     if e.label and e.label[0] in ("val", "bool") and bb in b.dominated_by_edge(e):
                         for o in origins(b, e.label[2]) if e.label[2] is not None else []:
                             if o[0] == "binop" and o[1] == "Eq":
-                                for s in (o[2], o[3]):
-                                    for y in s:
+                                for s_ in (o[2], o[3]):
+                                    for y in s_:
                                         if y[0] == "const":
                                             vals.add(y[1])
                         if e.label[0] == "val":
                             vals.add(str(e.label[1]))
                 return vals
             lc, ls = len_of(from_cur[0]), len_of(from_seg[0])
-            ctx.check(any(v.startswith("1") for v in lc) and any(v.startswith("2") for v in ls), f"{short(b.name)}/arms", [site(b, from_cur[0]), site(b, from_seg[0])],
-                      f"the one-segment and two-segment arms are swapped or not distinguished by length (bare under len in {sorted(lc)}, qualified under len in {sorted(ls)})")
+            if lc or ls:
+                # the slice-pattern idiom: the arms are told apart by the number of segments
+                ctx.check(any(v.startswith("1") for v in lc) and any(v.startswith("2") for v in ls), f"{short(b.name)}/arms", [site(b, from_cur[0]), site(b, from_seg[0])],
+                          f"the one-segment and two-segment arms are swapped or not distinguished by length (bare under len in {sorted(lc)}, qualified under len in {sorted(ls)})")
+            else:
+                # the iterator idiom (`match (parts.next(), parts.next(), ..)`): the bare arm is where the second segment is None, the qualified one where it is Some
+                def second_is(bb, want):
+                    return any(e.label and e.label[0] == "variant" and e.label[2] == (want,) and bb in b.dominated_by_edge(e) and
+                               origin_matches(edge_origin(b, e), lambda o: o[0] == "call" and o[1].endswith("::next")) for e in b.edges)
+                ctx.check(second_is(from_cur[0], "None") and second_is(from_seg[0], "Some"), f"{short(b.name)}/arms", [site(b, from_cur[0]), site(b, from_seg[0])],
+                          "the bare-name arm is not the one where no further segment exists (or the qualified arm not the one where one exists)")
+
+
+def _rv_atoms(b, rv):
+    if rv.get("k") == "call":
+        t = rv["t"]
+        out = set()
+        if t["callee"]:
+            out.add(("callres", callee_base(t)))
+        for a in t["args"]:
+            out |= b.prov.operand_atoms(a)
+        return out
+    out = set()
+    pl, cs = rv_sources(rv)
+    if rv["k"] == "agg" and "adt" in rv:
+        out.add(("agg", rv["adt"], rv["variant"]))
+    for c in cs:
+        out |= const_atoms(c)
+    for p in pl:
+        out |= b.prov.place_atoms(p)
+    return out
 
 
 @rule("C19.CALLERS", ["C19", "C09"], """the `current project` given to the name parser is the root project's name in main, and the declaring target's own project inside project files""", "K5", floor=3)
@@ -629,11 +743,11 @@ def names_offered(ctx):
             ctx.check(atom_has_field(cat, "projects"), f"{short(c)}/all-projects", [cb.loc()], "the list of all targets does not range over all loaded projects")
 
 
-def regex_literals(f, body_name_rx):
-    """string literals handed to Regex::new inside lazy_static initialisers whose path matches body_name_rx"""
+def regex_literals(f):
+    """string literals handed to Regex::new anywhere in the crate: [(body, bb, literal)]"""
     out = []
     for n, b in f.bodies.items():
-        if not re.search(body_name_rx, n):
+        if b.kind in ("Const", "Static"):
             continue
         for bb, t in b.calls():
             if t["callee"]["base"].endswith("Regex::new") and t["args"]:
@@ -659,7 +773,9 @@ def _py_regex(lit):
 def name_regex(ctx):
     f = ctx.f
     import re as _re
-    vals = regex_literals(f, r"is_valid_\w+_name::RE.*__static_ref_initialize$")
+    allre = regex_literals(f)
+    outs = [x for x in allre if "output" in x[2]]
+    vals = [x for x in allre if "output" not in x[2]]
     ctx.need(len(vals) >= 2, f"name-validation regex literals (found {len(vals)})")
     for (b, bb, lit) in vals:
         try:
@@ -670,8 +786,7 @@ def name_regex(ctx):
         good = ["a", "my-target", "007", "_hidden", "a_b-c"]
         bad = ["", "-", "-a", "a::b", "a:b", "a.b", "a b", "a/b", "a.output", " a", "a\n"]
         wrong = [x for x in good if not rx.search(x)] + [x for x in bad if rx.search(x)]
-        ctx.check(not wrong, f"{short(f.bodies[b.name].name.split('::RE')[0])}/accepts-exactly-names", [site(b, bb)], f"the name regex {lit} misclassifies {wrong}: names containing `::`/`.` would make target references ambiguous (and the justified unwraps unjustified)")
-    outs = regex_literals(f, r"transform_input.*RE.*__static_ref_initialize$")
+        ctx.check(not wrong, f"{short(b.name.split('::RE')[0]).split(' ')[0].strip('<')}/accepts-exactly-names", [site(b, bb)], f"the name regex {lit} misclassifies {wrong}: names containing `::`/`.` would make target references ambiguous (and the justified unwraps unjustified)")
     ctx.need(outs, "`X.output` regex literal")
     for (b, bb, lit) in outs:
         try:
@@ -706,4 +821,4 @@ def id_construction_sites(ctx):
             lister = re.search(r"Vec<[\w:]*TargetId>", f.bodies[outer].ret) is not None and f.bodies[outer].argc == 1
             ctx.check(from_map and lister, f"{short(outer)}@{bb}", [site(b, bb)],
                       "a target id is assembled outside the name parser: the current-project default (bare name = target of the same project) is bypassed")
-    ctx.need(n >= 3, "constructions of TargetId")
+    ctx.need(n >= 2, "constructions of TargetId")
